@@ -165,6 +165,9 @@ impl ExprStream {
             return gexpr::component_repetition(&mut rng);
         }
         let mut rng = Rng::derive(self.seed, "expr-shape", i as u64);
+        if i % 3 == 2 {
+            return gexpr::root_position_shape(&mut rng);
+        }
         gexpr::branch_shapes(&mut rng, 1).pop().unwrap_or_default()
     }
 }
